@@ -588,6 +588,7 @@ def cmd_selftest_determinism(prop, nseeds, tier="quick"):
     jobs = jobs_for(engines, prop)
     bad = 0
     total = 0
+    per = {}
     for j in jobs:
         b = build_engine(engines[j["engine"]], quiet=True)
         if b is None:
@@ -614,10 +615,14 @@ def cmd_selftest_determinism(prop, nseeds, tier="quick"):
                     else:
                         res.append(None)
                 total += 1
+                pg = per.setdefault(gmp, [0, 0])
+                pg[1] += 1
+                if not (len(res) != 2 or res[0] is None or res[0] != res[1]):
+                    pg[0] += 1
                 if len(res) != 2 or res[0] is None or res[0] != res[1]:
                     bad += 1
                     log("vf: determinism MISMATCH job=%s/%s gomaxprocs=%d seed=%d" % (j["test"], j.get("config"), gmp, s))
-    log("vf: determinism %s: %d/%d seed pairs identical" % (prop, total - bad, total))
+    log("vf: determinism %s: %d/%d seed pairs identical (%s)" % (prop, total - bad, total, ", ".join("GOMAXPROCS=%d: %d/%d" % (g, v[0], v[1]) for g, v in sorted(per.items()))))
     shutil.rmtree(os.path.join(WORK, "det"), ignore_errors=True)
     return 0 if bad == 0 else 3
 
